@@ -51,6 +51,7 @@ C['C03']=dict(mutants=[
  m('components-prealloc',SCDX,'\tcomponents := []cdx.Component{}\n','\tcomponents := make([]cdx.Component, 0, len(s.componentsDict))\n'),
 ])
 C['C04']=dict(mutants=[
+ m('lookup-registers-under-read-lock',RD,'\tif u, ok := unserializers[format]; ok {\n\t\treturn u, nil\n\t}\n\treturn nil, fmt.Errorf("no serializer registered for %s", format)','\tif u, ok := unserializers[format]; ok {\n\t\treturn u, nil\n\t}\n\tif u, ok := unserializers[formats.SPDX23JSON]; ok && format == formats.SPDX22JSON {\n\t\tRegisterUnserializer(format, u)\n\t\treturn u, nil\n\t}\n\treturn nil, fmt.Errorf("no serializer registered for %s", format)','no-lock-reentry'),
  m('sniffer-slices-unchecked',SNIFF,'\tstringValue := string(data)\n\n\tif strings.Contains(stringValue, "SPDXVersion:") {','\tstringValue := string(data)\n\tif stringValue[:4] == "SPDX" {\n\t\tstate.Encoding = "text"\n\t}\n\n\tif strings.Contains(stringValue, "SPDXVersion:") {','absent-part-guard'),
  m('sniffer-nil-map',SNIFF,'\tstates := make(sniffStates, len(sniffFormats))\n','\tvar states sniffStates\n','map-write-initialised'),
  m('drop-license-nil-guard',UCDX,'\t\tlicenseID := ""\n\t\tif lc.License != nil {\n\t\t\tlicenseID = lc.License.ID\n\t\t}\n\t\tif lc.Expression == "" && licenseID == "" {\n\t\t\tcontinue\n\t\t}\n\n\t\tif lc.Expression != "" {','\t\tlicenseID := lc.License.ID\n\t\tif lc.Expression == "" && licenseID == "" {\n\t\t\tcontinue\n\t\t}\n\n\t\tif lc.Expression != "" {','absent-part-guard'),
@@ -86,6 +87,7 @@ C['C06']=dict(mutants=[
  m('rename-struct-var',SNIFF,'\tvar specversionjson SpecVersionStruct\n\terr := decoder.Decode(&specversionjson)','\tvar specversionjson SpecVersionStruct\n\terr := decoder.Decode((&specversionjson))'),
 ])
 C['C07']=dict(mutants=[
+ m('root-component-may-be-nil',SCDX,'\tif n.Type == sbom.Node_FILE {\n\t\tc.Type = cdx.ComponentTypeFile\n\t} else if len(n.PrimaryPurpose) > 0 {','\tif n.Type != sbom.Node_FILE && n.Type != sbom.Node_PACKAGE {\n\t\treturn nil\n\t}\n\tif n.Type == sbom.Node_FILE {\n\t\tc.Type = cdx.ComponentTypeFile\n\t} else if len(n.PrimaryPurpose) > 0 {','absent-part-guard'),
  m('cpe-cases-merged',SCDX,'\t\t\tcase int32(sbom.SoftwareIdentifierType_CPE23):\n\t\t\t\t// CPE 2.3 takes precedence, but an empty value must not erase a\n\t\t\t\t// CPE 2.2 seen earlier: map iteration order is random.\n\t\t\t\tif cpe := n.Identifiers[idType]; cpe != "" {\n\t\t\t\t\tc.CPE = cpe\n\t\t\t\t}\n\t\t\tcase int32(sbom.SoftwareIdentifierType_CPE22):\n','\t\t\tcase int32(sbom.SoftwareIdentifierType_CPE23), int32(sbom.SoftwareIdentifierType_CPE22):\n','map-order-independence'),
  m('cpe23-unconditional',SCDX,'\t\t\t\tif cpe := n.Identifiers[idType]; cpe != "" {\n\t\t\t\t\tc.CPE = cpe\n\t\t\t\t}\n','\t\t\t\tc.CPE = n.Identifiers[idType]\n','map-order-independence'),
  m('serializer-state-nil-map',SCDX,'\t\taddedDict:      map[string]struct{}{},\n','','map-write-initialised'),
@@ -166,6 +168,7 @@ C['C14']=dict(mutants=[
  m('count-dropped',DIFF,'\tnd.Removed.Comment = r\n\tnd.DiffCount += c\n','\tnd.Removed.Comment = r\n','diff-stanza'),
  m('operands-swapped',DIFF,'diff(n.Summary, n2.Summary)','diff(n2.Summary, n.Summary)','diff-stanza'),
  m('threshold',DIFF,'\tif nd.DiffCount > 0 {\n\t\treturn &nd','\tif nd.DiffCount > 1 {\n\t\treturn &nd','diff-result'),
+ m('stanza-under-node-type',DIFF,'\tadded, removed, count = diffSlice(n.FileTypes, n2.FileTypes)\n\tnd.Added.FileTypes = added\n\tnd.Removed.FileTypes = removed\n\tnd.DiffCount += count\n','\tif n.Type == Node_FILE || n2.Type == Node_FILE {\n\t\tadded, removed, count = diffSlice(n.FileTypes, n2.FileTypes)\n\t\tnd.Added.FileTypes = added\n\t\tnd.Removed.FileTypes = removed\n\t\tnd.DiffCount += count\n\t}\n','diff-stanza'),
  m('map-ignores-value-change',DIFF,'\t\t\tif v1 != v2 {\n\t\t\t\tadded[k] = v2\n\t\t\t}\n','\t\t\t_ = v1\n','diff-helper-semantics'),
 ],benign=[])
 C['C15']=dict(mutants=[
@@ -178,6 +181,7 @@ C['C15']=dict(mutants=[
  m('extra-root',NL,'\tnodelist.RootElements = append(nodelist.RootElements, id)\n\tnodelist.cleanEdges()','\tnodelist.RootElements = append(nodelist.RootElements, nl.RootElements...)\n\tnodelist.cleanEdges()','traversal-guard'),
 ],benign=[])
 C['C16']=dict(mutants=[
+ m('tie-break-on-absent-purl',NL,'\t\tif testPurl == "" {\n\t\t\treturn nil, ErrorMoreThanOneMatch\n\t\t}\n\n\t\tfoundByPurl := []*Node{}\n\t\tfor n := range foundNodes {\n\t\t\tif tp := n.Purl(); tp != "" && tp == testPurl {','\t\tfoundByPurl := []*Node{}\n\t\tfor n := range foundNodes {\n\t\t\tif n.Purl() == testPurl {','purl-criterion-nonempty'),
  m('index-key-lowercased',NL,'\t\t\ts := fmt.Sprintf("%d:%s", algo, hashVal)\n\t\t\tret[s] = append(ret[s], n)','\t\t\ts := fmt.Sprintf("%d:%s", algo, strings.ToLower(hashVal))\n\t\t\tret[s] = append(ret[s], n)','constant-agreement'),
  m('rootnodes-early-break',NL,'\t\t\tret = append(ret, nl.Nodes[i])\n\t\t}\n\t}\n\t// TODO(ehandling)','\t\t\tret = append(ret, nl.Nodes[i])\n\t\t\tif len(ret) == len(index) {\n\t\t\t\tbreak\n\t\t\t}\n\t\t}\n\t}\n\t// TODO(ehandling)','loop-totality'),
  m('purl-tiebreak-first-wins',NL,'\t\t\tif tp := n.Purl(); tp != "" && tp == testPurl {\n\t\t\t\tfoundByPurl = append(foundByPurl, n)\n\t\t\t}','\t\t\tif tp := n.Purl(); tp != "" && tp == testPurl && len(foundByPurl) == 0 {\n\t\t\t\tfoundByPurl = append(foundByPurl, n)\n\t\t\t}',''),
